@@ -17,12 +17,16 @@
  *   flow <ptype> <defmod> <minsize> <nitems> {<neg> <name> <module|~>}… <nmods>
  *        { <lib> <ty> <toff> <tsize> <setupfails> <npages> <codehex>
  *          <nsyms> {<name> <addr> <size> <type>}… <nlocs> {<loc>}… <ngot> {<off> <which>}… }…
+ *        (a symbol of type P is a PLT entry: ST_PLT_FUNC; symbols must be sorted by address)
  * stdout per case:
- *   MODEL <line for `uvmodel C14`>
+ *   MODEL <line for `uv_C14 C14`>
  *   IMPL <result line in the model's output format>
+ * or, when a mandatory token is missing or malformed (nothing of the case is run):
+ *   ERROR protocol: <what> (input line <n>)
  */
 #define _GNU_SOURCE
 #include <errno.h>
+#include <setjmp.h>
 #include <stdarg.h>
 #include <sys/syscall.h>
 
@@ -61,7 +65,17 @@ int mprotect(void *addr, size_t len, int prot)
 }
 
 /* ---- helpers ---- */
-static char *tok(char **p)
+static jmp_buf protocol_error;
+static const char *protocol_what;
+
+static void bad_input(const char *what)
+{
+	protocol_what = what;
+	longjmp(protocol_error, 1);
+}
+
+/* next token or NULL at the end of the line */
+static char *opt_tok(char **p)
 {
 	char *s = *p, *e;
 
@@ -78,6 +92,27 @@ static char *tok(char **p)
 	return s;
 }
 
+/* a mandatory token: a missing one is a protocol error, never a NULL dereference */
+static char *tok(char **p)
+{
+	char *s = opt_tok(p);
+
+	if (s == NULL)
+		bad_input("missing token");
+	return s;
+}
+
+/* a count: decimal, bounded */
+static int tok_count(char **p, int max)
+{
+	char *s = tok(p), *end;
+	long v = strtol(s, &end, 10);
+
+	if (*end != '\0' || end == s || v < 0 || v > max)
+		bad_input("bad count");
+	return (int)v;
+}
+
 static int hexval(int c)
 {
 	if (c >= '0' && c <= '9')
@@ -91,8 +126,11 @@ static int hexval(int c)
 static unsigned char *unhex(const char *h, size_t *len)
 {
 	size_t n = strcmp(h, "-") ? strlen(h) / 2 : 0, i;
-	unsigned char *b = calloc(n + 1, 1);
+	unsigned char *b;
 
+	if (strcmp(h, "-") && (strlen(h) % 2 || strspn(h, "0123456789abcdefABCDEF") != strlen(h)))
+		bad_input("bad hex string");
+	b = calloc(n + 1, 1);
 	for (i = 0; i < n; i++)
 		b[i] = hexval(h[2 * i]) * 16 + hexval(h[2 * i + 1]);
 	if (len)
@@ -125,12 +163,40 @@ static enum mcount_dynamic_type parse_ty(const char *s)
 		if (!strcmp(s, mdi_type_names[i]))
 			return i;
 	}
-	fprintf(stderr, "bad type %s\n", s);
-	exit(3);
+	bad_input("bad module type");
+	return 0;
 }
 
 #define REGION_HINT 0x5a0000000000UL
 #define REGION_STRIDE 0x100000UL
+
+/* regions of the case being run (unmapped by the protocol error handler) */
+#define MAX_LIVE 64
+static unsigned char *live_region[MAX_LIVE];
+static int live_npages[MAX_LIVE];
+
+static void live_add(unsigned char *p, int npages)
+{
+	int i;
+
+	for (i = 0; i < MAX_LIVE; i++) {
+		if (live_region[i] == NULL) {
+			live_region[i] = p;
+			live_npages[i] = npages;
+			return;
+		}
+	}
+}
+
+static void live_del(unsigned char *p)
+{
+	int i;
+
+	for (i = 0; i < MAX_LIVE; i++) {
+		if (live_region[i] == p)
+			live_region[i] = NULL;
+	}
+}
 
 /* npages mapped RW (zero), the page after them is left unmapped, one PROT_NONE
  * page behind it keeps other allocations away */
@@ -150,12 +216,24 @@ static unsigned char *map_region(int k, int npages)
 	}
 	munmap(p + (size_t)npages * PAGE_SIZE, PAGE_SIZE);
 	syscall(SYS_mprotect, p + (size_t)(npages + 1) * PAGE_SIZE, PAGE_SIZE, PROT_NONE);
+	live_add(p, npages);
 	return p;
 }
 
 static void unmap_region(unsigned char *p, int npages)
 {
 	munmap(p, (size_t)(npages + 2) * PAGE_SIZE);
+	live_del(p);
+}
+
+static void unmap_live_regions(void)
+{
+	int i;
+
+	for (i = 0; i < MAX_LIVE; i++) {
+		if (live_region[i])
+			unmap_region(live_region[i], live_npages[i]);
+	}
 }
 
 /* one char per page: x = r-x, W = rwx, w = rw-, r = r--, - = none/unmapped */
@@ -206,13 +284,13 @@ struct item {
 
 static int read_items(char **p, struct item **out)
 {
-	int n = atoi(tok(p)), i;
+	int n = tok_count(p, 4096), i;
 	struct item *it = calloc(n + 1, sizeof(*it));
 
 	for (i = 0; i < n; i++) {
 		char *m;
 
-		it[i].neg = atoi(tok(p));
+		it[i].neg = tok_count(p, 1);
 		it[i].name = (char *)unhex(tok(p), NULL);
 		m = tok(p);
 		it[i].module = strcmp(m, "~") ? (char *)unhex(m, NULL) : NULL;
@@ -274,14 +352,14 @@ static struct uftrace_mmap *h_new_map(const char *libpath)
 
 static void do_pl(char *p)
 {
-	enum uftrace_pattern_type ptype = atoi(tok(&p));
+	enum uftrace_pattern_type ptype = tok_count(&p, 3);
 	char *defmod = (char *)unhex(tok(&p), NULL);
 	char *libpath = (char *)unhex(tok(&p), NULL);
 	char *so_tok = tok(&p);
 	char *soname = strcmp(so_tok, "~") ? (char *)unhex(so_tok, NULL) : NULL;
 	struct item *it;
 	int nitems = read_items(&p, &it);
-	int nsyms = atoi(tok(&p));
+	int nsyms = tok_count(&p, 65536);
 	char **syms = calloc(nsyms + 1, sizeof(*syms));
 	char *patch = join_items(it, nitems), *patch_copy;
 	struct uftrace_mmap *map = h_new_map(libpath);
@@ -415,24 +493,26 @@ static void do_pf(char *p, bool unpatch)
 			mdi.nr_patch_target = 1;
 		}
 
-		/* optional: code segment size, trampoline, GOT contents, PLT symbols */
-		t = tok(&p);
+		/* optional group: code segment size, trampoline, GOT contents, PLT symbols */
+		t = opt_tok(&p);
 		textsize = t ? strtol(t, NULL, 0) : (long)len;
 		mdi.text_size = textsize;
-		t = t ? tok(&p) : NULL;
-		if (t && strcmp(t, "~"))
-			mdi.trampoline = map->start + strtoul(t, NULL, 0);
-		t = t ? tok(&p) : NULL;
-		ngot = t ? atoi(t) : 0;
+		ngot = nplt = 0;
+		if (t) {
+			t = tok(&p);
+			if (strcmp(t, "~"))
+				mdi.trampoline = map->start + strtoul(t, NULL, 0);
+			ngot = tok_count(&p, 4096);
+		}
 		for (i = 0; i < ngot; i++) {
 			unsigned long off = strtoul(tok(&p), NULL, 0);
-			unsigned long v = entry_addr(atoi(tok(&p)));
+			unsigned long v = entry_addr(tok_count(&p, 2));
 
 			if (off + sizeof(v) <= len)
 				memcpy(code + off, &v, sizeof(v));
 		}
-		t = t ? tok(&p) : NULL;
-		nplt = t ? atoi(t) : 0;
+		if (t)
+			nplt = tok_count(&p, 4096);
 		mod = xzalloc(sizeof(*mod) + 8);
 		strcpy(mod->name, "pf");
 		mod->symtab.sym = xcalloc(nplt + 1, sizeof(*mod->symtab.sym));
@@ -446,7 +526,7 @@ static void do_pf(char *p, bool unpatch)
 		map->mod = mod;
 		memcpy(buf, code, len);
 
-		printf("MODEL uf %s %#lx %s ", ty, (unsigned long)sym.addr, loc);
+		printf("MODEL uf %s %#lx %u %s ", ty, (unsigned long)sym.addr, sym.size, loc);
 		puthex(code, len);
 		printf(" %#lx %zu 0 %ld %#lx %#lx %#lx", map->start, len, textsize, mdi.trampoline,
 		       entry_addr(0), entry_addr(1));
@@ -509,13 +589,13 @@ static void put_bits(enum uftrace_pattern_type ptype, struct item *it, int nitem
 
 static void do_flow(char *p)
 {
-	enum uftrace_pattern_type ptype = atoi(tok(&p));
+	enum uftrace_pattern_type ptype = tok_count(&p, 3);
 	char *defmod = (char *)unhex(tok(&p), NULL);
 	unsigned minsize = strtoul(tok(&p), NULL, 0);
 	struct item *it;
 	int nitems = read_items(&p, &it);
 	char *patch = join_items(it, nitems), *patch_copy;
-	int nmods = atoi(tok(&p));
+	int nmods = tok_count(&p, 16);
 	struct fmod *fm = calloc(nmods + 1, sizeof(*fm));
 	struct uftrace_sym_info sinfo;
 	struct uftrace_mmap *last = NULL;
@@ -524,18 +604,23 @@ static void do_flow(char *p)
 
 	memset(&sinfo, 0, sizeof(sinfo));
 
+	/* 1. read the whole case: a protocol error leaves nothing mapped or linked */
 	for (k = 0; k < nmods; k++) {
 		struct fmod *m = &fm[k];
-		char path[512];
 
 		m->lib = (char *)unhex(tok(&p), NULL);
 		m->ty = tok(&p);
+		parse_ty(m->ty);
 		m->toff = strtoul(tok(&p), NULL, 0);
 		m->tsize = strtol(tok(&p), NULL, 0);
-		m->setupfails = atoi(tok(&p));
-		m->npages = atoi(tok(&p));
+		m->setupfails = tok_count(&p, 1);
+		m->npages = tok_count(&p, 32);
+		if (m->npages < 1)
+			bad_input("module without pages");
 		m->code = unhex(tok(&p), &m->codelen);
-		m->nsyms = atoi(tok(&p));
+		if (m->codelen > (size_t)m->npages * PAGE_SIZE)
+			bad_input("code longer than the module's pages");
+		m->nsyms = tok_count(&p, 65536);
 		m->syms = calloc(m->nsyms + 1, sizeof(*m->syms));
 		for (i = 0; i < m->nsyms; i++) {
 			m->syms[i].name = (char *)unhex(tok(&p), NULL);
@@ -543,18 +628,24 @@ static void do_flow(char *p)
 			m->syms[i].size = strtoul(tok(&p), NULL, 0);
 			m->syms[i].type = tok(&p)[0];
 		}
-		m->nlocs = atoi(tok(&p));
+		m->nlocs = tok_count(&p, 65536);
 		m->locs = calloc(m->nlocs + 1, sizeof(*m->locs));
 		for (i = 0; i < m->nlocs; i++)
 			m->locs[i] = strtoul(tok(&p), NULL, 0);
-		m->ngot = atoi(tok(&p));
+		m->ngot = tok_count(&p, 4096);
 		for (i = 0; i < m->ngot; i++) {
 			unsigned long off = strtoul(tok(&p), NULL, 0);
-			unsigned long v = entry_addr(atoi(tok(&p)));
+			unsigned long v = entry_addr(tok_count(&p, 2));
 
 			if (off + sizeof(v) <= m->codelen)
 				memcpy(m->code + off, &v, sizeof(v));
 		}
+	}
+
+	/* 2. build the fake modules */
+	for (k = 0; k < nmods; k++) {
+		struct fmod *m = &fm[k];
+		char path[512];
 
 		/* memory: npages of r-x "text segment" holding the code */
 		m->region = map_region(k, m->npages);
@@ -589,7 +680,7 @@ static void do_flow(char *p)
 		m->mdi->next = mdinfo;
 		mdinfo = m->mdi;
 
-		if (m->setupfails)
+		if (m->setupfails && nr_fail_rwx < (int)ARRAY_SIZE(fail_rwx_page))
 			fail_rwx_page[nr_fail_rwx++] = (unsigned long)PAGE_ADDR(m->mdi->text_addr);
 	}
 
@@ -697,16 +788,28 @@ int main(void)
 {
 	char *line = NULL;
 	size_t cap = 0;
+	static int lineno;
 
 	logfp = stderr;
 	outfp = stdout;
 
 	while (getline(&line, &cap, stdin) > 0) {
 		char *p = line;
-		char *cmd = tok(&p);
+		char *cmd = opt_tok(&p);
 
+		lineno++;
 		if (cmd == NULL || cmd[0] == '#')
 			continue;
+		if (setjmp(protocol_error)) {
+			/* nothing of the case has run; drop what was set up for it */
+			unmap_live_regions();
+			mdinfo = NULL;
+			nr_fail_rwx = 0;
+			release_pattern_list();
+			printf("ERROR protocol: %s (input line %d)\n", protocol_what, lineno);
+			fflush(stdout);
+			continue;
+		}
 		if (!strcmp(cmd, "pl"))
 			do_pl(p);
 		else if (!strcmp(cmd, "pf"))
@@ -715,10 +818,8 @@ int main(void)
 			do_pf(p, true);
 		else if (!strcmp(cmd, "flow"))
 			do_flow(p);
-		else {
-			fprintf(stderr, "bad command %s\n", cmd);
-			return 3;
-		}
+		else
+			bad_input("unknown command");
 		fflush(stdout);
 	}
 	return 0;
